@@ -4,9 +4,11 @@
   out.  The first word selects the model.
 -/
 import Driver.Session
+import Driver.Credit
 
 structure DState where
   sess : Amqp.Session.St := Amqp.Session.init 0 0 0
+  credit : Amqp.Credit.SSt := { dc := 0, lc := 0, initDc := 0, drain := false }
 
 def handle (st : DState) (line : String) : DState × String :=
   match Driver.words line with
@@ -14,6 +16,11 @@ def handle (st : DState) (line : String) : DState × String :=
     match Driver.Session.step st.sess ws with
     | some (s, out) => ({ st with sess := s }, out)
     | none => (st, "bad-op")
+  | "K" :: ws =>
+    match Driver.Credit.step st.credit ws with
+    | some (s, out) => ({ st with credit := s }, out)
+    | none => (st, "bad-op")
+  | "W" :: ws => (st, (Driver.Credit.wait ws).getD "bad-op")
   | _ => (st, "bad-op")
 
 partial def loop (h : IO.FS.Stream) (out : IO.FS.Stream) (st : DState) : IO Unit := do
